@@ -643,6 +643,20 @@ func ruleLeadershipChannelIsClosedOnce(c *eng.Ctx) {
 			c.Check(w == nil, "the channel BecomeFollower closes is forgotten", c.Pos(closes[0]), "close(a.leadershipLostCh); a.leadershipLostCh = nil", "BecomeFollower closes leadershipLostCh and keeps it ("+w.String()+"): when the next promotion fails before BecomeLeader replaces the channel (raft.Barrier answers ErrLeadershipLost), the following leadershipLost closes the same channel again — `close of closed channel` kills the server, and with it the dispatcher of every later term")
 		}
 	}
+	// ... and what BecomeLeader hands the dispatcher is the channel it made in this call: `dispatch(a.leadershipLostCh)` inside
+	// the goroutine's literal reads the field when the goroutine gets to run — by then a quick step-down may have set it to
+	// nil (a dispatcher that never stops) and the next term may have replaced it
+	if bl := c.FnQuiet("server.(*activityManager).BecomeLeader"); bl != nil {
+		for _, g := range append([]*ssa.Function{bl}, bl.AnonFuncs...) {
+			for _, dc := range eng.CallsIn(g, "server.activityManager.dispatch") {
+				args := eng.AllArgs(dc.Common())
+				if len(args) < 2 {
+					continue
+				}
+				c.Check(!eng.LoadNamed("leadershipLostCh", nil)(eng.Strip(args[1])), "the dispatcher is handed the channel BecomeLeader made for this term", c.Pos(dc.(ssa.Instruction)), "dispatch(leadershipLostCh) with the local made in this call", "BecomeLeader starts the dispatcher with a read of the field leadershipLostCh made when the goroutine runs, not with the channel of this term: after a quick step-down the field is nil (the dispatcher never stops and publishes as a deposed controller) or already the next term's")
+			}
+		}
+	}
 	if fn := c.Fn("server.(*activityManager).dispatch"); fn != nil {
 		reads := 0
 		eng.Instrs(fn, func(in ssa.Instruction) {
